@@ -113,8 +113,17 @@ def drive(rep, tier, seed):
             body = ", ".join(tg.src_of(e) for e in v)
             return "[%s]" % body if kind == "list" else "V(%s)" % body
         steps, plan = [], []
+        if rng.random() < 0.25:
+            # one sequence OBJECT on both sides (a variable compared with itself or with its alias): the
+            # answer is still the lexicographic one - with a NaN inside, `x == x` is false and `x < x` raises
+            ys = list(xs)
+            steps += [{"src": "sa := " + sq(xs)}, {"src": "sb := sa"}]
+            plan += [("setup",), ("setup",)]
+            lhs, rhs = "sa", rng.choice(["sa", "sb"])
+        else:
+            lhs, rhs = sq(xs), sq(ys)
         for op in SEQ_OPS:
-            steps.append({"src": "(%s) %s (%s)" % (sq(xs), op, sq(ys))})
+            steps.append({"src": "(%s) %s (%s)" % (lhs, op, rhs)})
             plan.append(("seqcmp", op, xs, ys))
         cases.append({"id": len(cases), "steps": steps})
         plans.append(plan)
